@@ -59,7 +59,7 @@ func ruleR08a(c *Ctx, r *Report) {
 			continue
 		}
 		k := fnKey(fn)
-		if _, ok := constructorPhase[k]; !ok {
+		if _, ok := ctorPhase(c)[k]; !ok {
 			continue
 		}
 		if fn.Signature.Recv() == nil {
@@ -69,13 +69,13 @@ func ruleR08a(c *Ctx, r *Report) {
 		for _, g := range la.funcs {
 			eachInstr(g, func(in ssa.Instruction) {
 				if ci, ok := in.(ssa.CallInstruction); ok && ci.Common().StaticCallee() == fn {
-					if _, ok := constructorPhase[fnKey(la.topLevel(g))]; !ok {
+					if _, ok := ctorPhase(c)[fnKey(la.topLevel(g))]; !ok {
 						bad = fmt.Sprintf("constructor-phase helper %s is called from %s at %s, outside object construction", k, fnKey(g), c.Pos(in.Pos()))
 					}
 				}
 			})
 		}
-		r.Check(bad == "", "constructor-phase@"+k, c.Pos(fn.Pos()), "exempt: "+constructorPhase[k]+" (validated: only called during construction)", bad)
+		r.Check(bad == "", "constructor-phase@"+k, c.Pos(fn.Pos()), "exempt: "+ctorPhase(c)[k]+" (validated: only called during construction)", bad)
 	}
 	ord := map[string]int{}
 	for _, a := range la.accesses() {
@@ -361,7 +361,7 @@ func ruleR08d(c *Ctx, r *Report) {
 	stored := map[fieldID]string{}
 	for _, fn := range la.funcs {
 		top := fnKey(la.topLevel(fn))
-		if _, ok := constructorPhase[top]; ok {
+		if _, ok := ctorPhase(c)[top]; ok {
 			continue
 		}
 		eachInstr(fn, func(in ssa.Instruction) {
@@ -481,7 +481,7 @@ func autoGuard(c *Ctx) {
 		for top.Parent() != nil {
 			top = top.Parent()
 		}
-		if _, ok := constructorPhase[fnKey(top)]; ok {
+		if _, ok := ctorPhase(c)[fnKey(top)]; ok {
 			continue
 		}
 		eachInstr(fn, func(ins ssa.Instruction) {
